@@ -84,6 +84,7 @@ impl HyraxPC {
         (res is Ok && res->Ok_0) ==> proof@.len() >= commitments@.len(),   // name=hyrax.check.accept_implies_a_proof_for_every_commitment props=C03 finding=F8
         (res is Ok && res->Ok_0) ==> (forall|i: int| 0 <= i < min(commitments@.len(), _values@.len()) ==> hyrax_value_bound(vk, (#[trigger] _values@[i])@, &proof@[i])),   // name=hyrax.check.accept_implies_claimed_value_bound_to_com_eval props=C02,C10 finding=F1
 //@body
+//@r13
 //@rw 1 /point\.iter\(\)\.rev\(\)\.cloned\(\)\.collect\(\)/ => point.iter().rev().map(|x: &Fr| -> (y: Fr) ensures y == *x { *x }).collect()
 //@closure |chi| => |chi: &Fr| -> (b: BigInt) ensures b@ == chi@
 //@before /let l = tensor_prime\(point_lower\);/
